@@ -142,8 +142,12 @@ CLAIMED['C14'] = dict(
     text="Same extracted parallel_for skeleton, ghost state-ownership ledger: a state object bound to a launched, not yet waited invocation is never handed to the caller's invocation; "
          "the states container holds at least one element on every non-empty-range path (initStates loop contract: size >= numNeeded >= 1). For the static path the scheduler-index -> "
          "chunk-index remap is proved injective, below numThreads and different from the caller's chunk, and the state iterator is advanced by exactly that index, so concurrently "
-         "running chunks use distinct state objects.",
-    note="Dynamic/adaptive paths bind worker i to states[i] inside the stubs (read off their generator lambdas, not proved). The same known finding as C48 is reported (the caller-run tail "
+         "running chunks use distinct state objects. Dynamic (single- and multi-group) and adaptive paths: the std::advance argument of the bulk generator lambda and of the calling thread "
+         "is extracted and proved to be the generator index / numToLaunch; the dynamic worker lambdas are proved to draw their exit ticket (or raise the exit counter) only after their last "
+         "claimed chunk, to call the exit action exactly once with it, and the no-wait exit action to run the granularity tail on states.begin() only for the last exit ticket "
+         "numChunks + numToLaunch - 1 - so the tail never overlaps a worker that is still inside the functor.",
+    note="That the last exit ticket is drawn after all others is the counting argument over fetch_add (atomic RMW axiom); c * chunkSize is an uninterpreted injective function in the dynamic "
+         "worker units. The adaptive path's runStripeWorker is C12/C13 territory. The same known finding as C48 is reported (the caller-run tail "
          "uses *states.begin() while scheduled chunk 0 is using it); residual discharged.",
     technique="CBMC DFCC contracts over the extracted control skeleton with a ghost ownership ledger; intwp for the index remap and initStates loop")
 
@@ -273,11 +277,11 @@ CLAIMED['C38'] = dict(
     category='proof',
     text="Contracts (CBMC DFCC) on the extracted bodies of SmallVector: the representation accessors isInline, rawSize, data, capacity, setSize are proved for all states (heap bit / size mask "
          "arithmetic, no bound); every operation that walks or relocates elements - emplace_back (both push_back forms), pop_back, resize x2, erase, clear, reserve, ensureCapacity, growToHeap, "
-         "relocateToHeap, destroyAll, the destructor and the move constructor - is checked against its contract with the element loops unwound for vectors of at most 4 elements (BOUNDED "
+         "relocateToHeap, destroyAll, the destructor, the move constructor, move assignment, copy construction and copy assignment - is checked against its contract with the element loops unwound for vectors of at most 4 elements (BOUNDED "
          "stand-ins, listed under `bounded` in the evidence and never counted as proved). Obligations at every element access: storage not released, index inside the allocation, storage "
          "aligned for T (inline buffer alignas(T); heap block from ::operator new only if alignof(T) <= alignof(max_align_t), otherwise alignedMalloc, released by the matching function); "
          "construct/destroy balance equals the change of size(); heap storage released exactly once and only when empty; an argument that refers to an element of the vector itself is read "
-         "before the storage it lives in is vacated (v.push_back(v[0])); sizes and capacities after each operation are std::vector's.",
+         "before the storage it lives in is vacated (v.push_back(v[0]), v.resize(n, v[0])); sizes and capacities after each operation are std::vector's.",
     note="Element VALUES after each operation (which index holds what) are not decided: a cell-level model with value ghosts was out of the solver's reach here (OOM / > 5 min per property). "
          "Sizes below 2^40; N in {1,4} x alignof(T) in {8,64} quick; element type is an int tag; the storage union is rendered as separate fields. The two genuine defects this check found on "
          "the pinned tree were repaired (fix: commits 2fd2343, d72db5c in known_findings.txt): misaligned heap storage for over-aligned T, and push_back(v[i]) at capacity reading a destroyed "
@@ -304,10 +308,12 @@ CLAIMED['C18'] = dict(
          "that won the kNotStarted -> kRunning CAS, at most once per call, while the status is kRunning and before the future is published; the only writes to the status word are that CAS and "
          "the completion, done by the claimant, as kReady, after the functor ran, through notify (release store + wake) - a completion that is stored without the wake fails; the task-set "
          "counter decrement and the then-chain follow the publication; run returns true iff this call ran the functor, and false only if somebody else runs or ran it; wait returns only with "
-         "the status kReady; timed waits report ready only if kReady was observed and run the functor themselves only if inline execution is allowed.",
+         "the status kReady; timed waits report ready only if kReady was observed and run the functor themselves only if inline execution is allowed. Shared-state lifetime (every copy's get() sees the same live result): "
+         "incRefCount / decRefCountMaybeDestroy keep the counter equal to the number of owners as unbounded integers for fewer than 2^31 simultaneous owners (the counter's declared type is "
+         "read from the source), and dealloc() runs exactly when the last owner lets go.",
     note="A-SC; the rely (specs/c18_future.c others_act: the word only moves forward, only the claimant completes) and the R/G meta-theorem are trusted; 'exactly once over all threads' is the atomic "
-         "RMW axiom (one CAS winner) + 'never back to kNotStarted' proved here. CompletionEventImpl::notify/wait are used through their C21 contracts. Result identity, reference counting / dealloc, "
-         "and termination of the weak-CAS retry loop are NOT decided.",
+         "RMW axiom (one CAS winner) + 'never back to kNotStarted' proved here. CompletionEventImpl::notify/wait are used through their C21 contracts. Which call sites own a reference, and termination "
+         "of the weak-CAS retry loop, are NOT decided.",
     technique="CBMC DFCC function + loop contracts, rely/guarantee via interference before each atomic macro, ownership ghost for the claimant")
 
 CLAIMED['C04'] = dict(
@@ -356,9 +362,10 @@ CLAIMED['C33'] = dict(
          "offset < CAP(bucket), capacities doubling after the first two buckets); every bucket b has one trigger index START(b) + allocCheckIndex(CAP(b)), and a growth that reserved "
          "[index, index+len) prepares bucket k exactly when the trigger index of bucket k-1 lies in its range (single index: exactly when index is that trigger) - so, indices being handed "
          "out disjointly by size_.fetch_add (atomic RMW axiom), every bucket is allocated by exactly one growth; the sizing pass and the assignment pass of the range overload visit the "
-         "same buckets, each at most once, with the bucket's capacity; dispenso's own asserts in the range overload hold; every buffers_ index is inside the table.",
+         "same buckets, each at most once, with the bucket's capacity; before either overload returns, every bucket that holds one of the reserved indices has been seen published by an acquire "
+         "load (no element is constructed through an unpublished bucket); dispenso's own asserts in the range overload hold; every buffers_ index is inside the table.",
     note="Quick tier: all indices below 2^24; thorough: below 2^47 (Traits::kMaxVectorSize). Bucket loops are bounded by the number of reachable buckets and unwound completely. detail::log2 by "
-         "its C44 contract. NOT decided: element construction, iterator/reference validity, cached pointers, the spin-wait for a peer's allocation (progress), shrink/clear and the sequential "
+         "its C44 contract. NOT decided: element construction, iterator/reference validity, cached pointers, termination of the spin-wait for a peer's allocation (progress), shrink/clear and the sequential "
          "API (C32). The single-index path sizes bucket 1 at twice its capacity when triggered from bucket 0 (generous, noted, harmless).",
     technique="CBMC DFCC function contracts over extracted bodies, ghost bucket index and probe ghosts for the buffer table, constant-bounded loop unwinding")
 
